@@ -54,6 +54,7 @@ def make_specs(ctx: Ctx, n):
         int_init = i % 4 == 3
         init = qinit(gen.rand_initial_states(rng, m, na, integer=int_init))
         mode = i % 3
+        np_init = i % 7 == 5          # numpy arrays as initial states
         if mode == 0:      # value arrays produced by solve and handed to the simulate target
             # every other such case also records the intermediate state of each period (hooks) for step localisation
             plan = [{"op": "simulate", "target": "simulate", "init": init, "seed": rng.randrange(10**6), "vsrc": "given", "int_init": int_init,
@@ -69,6 +70,7 @@ def make_specs(ctx: Ctx, n):
             plan = [{"op": "simulate", "target": tgt, "init": init, "seed": rng.randrange(10**6), "vsrc": "given",
                      "arbitrary": arb, "int_init": int_init}]
             kind = "arbitrary arrays" + (" passed to the combined target" if tgt != "simulate" else "")
+        plan[0]["np_init"] = np_init
         specs.append(mk_spec(i, m, ["c02"], plan, label=f"{label}; {kind}" + ("; float64" if i % 5 == 4 else ""), x64=i % 5 == 4))
     return specs
 
